@@ -47,7 +47,10 @@ SPEC = dict(
              "for ALL tables, constructors, values (well typed or not) and budgets that they equal the hand model's serObj / serArg "
              "(c14_src_serializer: isinstance dispatch, signed / unsigned `#`, the 253/254 framing boundary and padding, the OverflowError from "
              "2^24 bytes on, flags-conditional fields, vectors, bare vs boxed writing of the id, every raise), so c14_wire holds of the "
-             "regenerated code (c14_src_wire) and the framing lemma of the regenerated serialize_field for every content (c14_src_string_lengths).",
+             "regenerated code (c14_src_wire) and the framing lemma of the regenerated serialize_field for every content (c14_src_string_lengths). "
+             "BlockIdExt.__init__ / to_bytes / from_bytes / __eq__ / __hash__ of tl/block.py are regenerated the same way and proved equal to the "
+             "model's toBytes / fromBytes / pyEq / pyHash for all ids, so the byte round trip and eq => same hash hold of the regenerated code "
+             "(c14_src_blockid).",
         level_note='Trusted: Lean kernel (propext, Classical.choice, Quot.sound), Spec/Tl.lean as the TL format, the table translator '
                    '(harness/translate/tl_table.py), the hand model Model/Tl.lean (tied by sampled correspondence, not by proof), Python '
                    'for the serialiser the hand model is now PROVED equal to the regenerated methods (trusted instead: the translator pydyn.py/pyobj.py, '
@@ -63,7 +66,7 @@ SPEC = dict(
     ),
     translators=[('tl schemas->Generated/TlTable.lean', TT.regenerate),
                  ('tl/generator.py bytes framing + vector guard->Generated/TlFraming.lean', arith2.regenerator('TlFraming')),
-                 ('tl/generator.py engine methods (base_types, little_id, serialize_field, serialize)->Generated/TlEngine.lean', TE.regenerate)],
+                 ('tl/generator.py serialiser methods + tl/block.py BlockIdExt->Generated/TlEngine.lean', TE.regenerate)],
     design_ref='DESIGN.md §6 C14',
     rule='for every covered constructor >= 3 type-directed random canonical values (boundary-biased ints, strings/bytes at lengths '
          '{0..4,252..257,65535 (thorough 2^24-1)} plus a sweep of every length 0..300, nested/polymorphic objects to depth 3, vectors of '
